@@ -158,12 +158,23 @@ type prefetchResponseReader struct {
 
 func (r *prefetchResponseReader) Read(p []byte) (int, error) {
 	if r.reader == nil {
-		resp, err := http.ReadResponse(bufio.NewReader(
+		br := bufio.NewReader(
 			io.TeeReader(r.source, r.buffer),
-		), nil)
+		)
+		resp, err := http.ReadResponse(br, nil)
 		if err == nil {
 			*r.contentLength, _ = io.Copy(ioutil.Discard, resp.Body)
 			resp.Body.Close()
+		} else {
+			// The net/http parser gives up on the first line it does not
+			// like, while ws.Dialer may accept the response. Read on to the
+			// end of the response head to have it in the buffer as a whole.
+			for headEnd(r.buffer.Bytes()) < 0 {
+				_, err := br.ReadSlice('\n')
+				if err != nil && err != bufio.ErrBufferFull {
+					break
+				}
+			}
 		}
 		bts := r.buffer.Bytes()
 		r.reader = io.MultiReader(
